@@ -66,6 +66,7 @@ struct Scenario {
    std::string type = "slha";       ///< input-type option used
    SrcKind src = SRC_STDIN;
    std::vector<std::string> pre_args, post_args; ///< extra argv elements before/after the input option
+   bool path_is_fifo = false;       ///< the named input is a FIFO fed in pieces with pauses (real-process layer; L1 reads the same bytes from a regular file)
    bool stdin_is_file = false;      ///< stdin is a regular file (seekable, size known) instead of a pipe
    unsigned max_iter_knob = 0;      ///< iteration budget of the on-shell conversion (0 = shipped value); only ever lowered
    int env_mode = 0;                ///< simulated process environment, see simulated_env()
@@ -124,7 +125,7 @@ static const char* const BLOCK_NAMES[] = {
    "IMNMIX", "IMUMIX", "IMVMIX", "IMAU", "IMAD", "IMAE", "IMHMIX", "IMMSOFT", "IMEXTPAR", "IMMINPAR", "IMMASS",
    "GM2CalcConfig", "GM2CalcInput", "GM2CalcOutput", "GM2CalcTHDMDeltauInput", "GM2CalcTHDMDeltadInput", "GM2CalcTHDMDeltalInput",
    "GM2CalcTHDMPiuInput", "GM2CalcTHDMPidInput", "GM2CalcTHDMPilInput", "FlexibleSUSY", "FlexibleSUSYOutput", "FlexibleSUSYInput", "LOWEN", "EFFHIGGSCOUPLINGS",
-   "NMSSMRUN", "NMHMIX", "NMAMIX", "NMNMIX", "RVLAMLLE", "THDMINPUTS", "MINPARTHDM", "HIGGSBOUNDSINPUTHIGGSCOUPLINGSBOSONS"};
+   "SPhenoLowEnergy", "NMSSMRUN", "NMHMIX", "NMAMIX", "NMNMIX", "RVLAMLLE", "THDMINPUTS", "MINPARTHDM", "HIGGSBOUNDSINPUTHIGGSCOUPLINGSBOSONS"};
 constexpr int N_BLOCK_NAMES = sizeof(BLOCK_NAMES) / sizeof(BLOCK_NAMES[0]);
 
 /// alphabet of the raw command lines (enumeration CMDLINE: every sequence of up to three atoms)
@@ -225,6 +226,20 @@ inline void apply_op(Scenario& s, const Corpus& corpus, const std::vector<std::s
          if (!d.empty() && d.back() != '\n') d += '\n';
          if (d.size() + copy.size() <= 70000) { d += copy; damaged("block_cloned_under_other_name"); }
       }
+   } else if (op == "preout") {
+      // preout V FRONT: the document already contains one of the blocks the program writes its results / diagnostics to
+      static const char* const pre[] = {
+         "Block GM2CalcOutput\n     0     1.00000000E-09   # a_mu from an earlier run\n     1     2.00000000E-10   # uncertainty\n",
+         "Block GM2CalcOutput Q= 1.00000000E+03\n     0     1.0E-09\n     0     2.0E-09\n     0     3.0E-09\n",
+         "Block GM2CalcOutput\n# only a comment\n",
+         "Block SPINFO\n     1   SomeGenerator\n     2   1.0\n     3   an old warning\n     3   another old warning\n     4   an old error\n",
+         "Block SPINFO\n",
+         "Block LOWEN\n     6     1.0E-09\n     6     2.0E-09\n     7     0.5\n",
+         "Block SPhenoLowEnergy\n    20     1.0E-13\n    21     1.0E-09\n    22     1.0E-07\n",
+         "Block SPhenoLowEnergy Q= 91.0\n# nothing\nBlock LOWEN\nBlock GM2CalcOutput\n"};
+      const char* b = pre[((num(1) % 8) + 8) % 8];
+      if (num(2) % 2) d.insert(0, b); else { if (!d.empty() && d.back() != '\n') d += '\n'; d += b; }
+      s.base_intact = false; note_fault(s, "output_block_already_present"); // (well-formed addition: the document stays clean)
    } else if (op == "manyscales") {
       // N blocks of the same name at N different scales appended (Q= selection code has to look at all of them)
       const size_t n = (size_t)std::min<long long>(std::max<long long>(1, num(1)), 3000);
@@ -395,7 +410,9 @@ inline void apply_op(Scenario& s, const Corpus& corpus, const std::vector<std::s
       if (t.size() > 1 && (t[1] == "slha" || t[1] == "gm2calc" || t[1] == "thdm")) { if (s.type != t[1]) note_fault(s, "mismatched_input_type"); s.type = t[1]; }
    } else if (op == "src") {
       const std::string k = t.size() > 1 ? t[1] : "stdin";
+      s.path_is_fifo = false;
       if (k == "stdin") s.src = SRC_STDIN; else if (k == "path") s.src = SRC_PATH;
+      else if (k == "fifo") { s.src = SRC_PATH; s.path_is_fifo = true; note_fault(s, "named_input_is_fifo_delivered_in_pieces"); }
       else if (k == "missing") { s.src = SRC_MISSING; note_fault(s, "missing_file"); }
       else if (k == "dir") { s.src = SRC_DIR; note_fault(s, "source_is_directory"); }
       else if (k == "emptyname") { s.src = SRC_EMPTYNAME; note_fault(s, "empty_source_name"); }
@@ -500,7 +517,8 @@ inline std::vector<std::string> gen_plan(const Corpus& corpus, uint64_t seed, st
       }
    };
    auto struct_op = [&]() -> std::string {
-      switch (r.below(22)) {
+      switch (r.below(23)) {
+      case 22: return "preout " + std::to_string(r.below(8)) + " " + std::to_string(r.below(2));
       case 20: return "renameblock " + std::to_string(r.below(30)) + " " + std::to_string(r.below(N_BLOCK_NAMES));
       case 21: return "cloneblock " + std::to_string(r.below(30)) + " " + std::to_string(r.below(N_BLOCK_NAMES));
       case 16: return "dropblock " + std::to_string(r.below(30));
@@ -531,7 +549,7 @@ inline std::vector<std::string> gen_plan(const Corpus& corpus, uint64_t seed, st
                  return "src missinglong " + std::to_string(r.chance(0.6) ? lens[r.below(17)] : (long)(1 + r.below(1200))) + " " + std::to_string(r.below(2)); }
       case 11: { static const long lens[] = {64, 200, 255, 256, 300, 512, 1024, 4096, 20000, 65536};
                  return std::string("longarg ") + (r.chance(0.5) ? "pre " : "post ") + std::to_string(r.below(5)) + " " + std::to_string(r.chance(0.6) ? lens[r.below(10)] : (long)(1 + r.below(1200))); }
-      case 0: return "src path";
+      case 0: return r.chance(0.25) ? "src fifo" : "src path";
       case 1: return r.chance(0.5) ? "src stdin" : (r.chance(0.5) ? "stdinkind file" : "stdinkind pipe");
       case 2: { static const char* const k[] = {"missing", "dir", "emptyname", "none"}; return std::string("src ") + k[r.below(4)]; }
       case 3: { static const char* const ty[] = {"slha", "gm2calc", "thdm"}; return std::string("type ") + ty[r.below(3)]; }
